@@ -24,6 +24,18 @@ theorem C02_bindings (text : Bytes) (e : Expr) (hcf : CallFree e) (nid : Nat) (h
   have := hv vf hle ⟨true, 0, 0, 0⟩
   simpa [window, limitLast] using this
 
+/-- the same through subroutines, recursion and global patterns (stage 2): whenever the specification of
+the resolved program answers, the variables and values the VM reports are exactly the specification's -/
+theorem C02_bindings_calls (G : GEnv) (e : Expr) (r : RExpr) (hr : resolveBody G e = some r)
+    (hG : WfG G) (he : WfE e) (hne : lenR r ≠ 0)
+    (text : Bytes) (pf cf nid : Nat) (A : List Match) (hA : findAllR text pf cf r = some A) :
+    ∃ vf0, ∀ vf, vf0 ≤ vf → ∃ R, findMatches pf vf (genBody r nid).1 ⟨true, 0, 0, 0⟩ text = some (.ok R) ∧
+      R.map (·.vars) = A.map (·.vars) ∧ R.map (·.value) = A.map (·.value) := by
+  obtain ⟨vf0, hv⟩ := C01_refines_calls_source G e r hr hG he hne text pf cf nid A hA
+  refine ⟨vf0, fun vf hle => ⟨A, ?_, rfl, rfl⟩⟩
+  have := hv vf hle ⟨true, 0, 0, 0⟩
+  simpa [window, limitLast] using this
+
 /-- `= name` binds exactly the text consumed by its body on this path, in the data passed on -/
 theorem C02_capture_value (text : Bytes) (lf : Nat) (x : String) (body : Expr) (d : Data) (ks : SK) (fk : FK) :
     m text lf (.dec x body) d ks fk =
@@ -78,6 +90,7 @@ example : backrefD [98] "x" ⟨1, 1, 2, [98], .cons "x" (.str []) .nil⟩ = some
   rfl
 
 #print axioms C02_bindings
+#print axioms C02_bindings_calls
 #print axioms C02_capture_value
 #print axioms C02_alternative_isolated
 #print axioms C02_backref
